@@ -82,12 +82,16 @@ class WrapIn(InputInterceptionDataHandler):
 
 
 class WrapOut(OutputInterceptionDataHandler):
-    def __init__(self, raises=False):
-        self.raises = raises
+    def __init__(self, raises=False, form="wrap"):
+        self.raises, self.form = raises, form
 
     def prepare_output_for_recording(self, interception_key, args, kwargs):
         if self.raises:
             raise pv.HandlerError("prepare")
+        if self.form == "count":
+            return len(args) + 10 * len(kwargs)      # what a handler prepares is opaque: a digest / checksum (an int) ..
+        if self.form == "null":
+            return None                              # .. or nothing at all (the call itself is the information)
         return {"a": list(args), "k": dict(kwargs)}
 
     def restore_output_from_recording(self, recorded_data):
@@ -357,7 +361,8 @@ def build_output(shared):
         r = interp(ctx, site["body"], list(a) + list(kw.values()))
         ctx.last_body_result[id(site)] = r
         return r
-    h = {"none": None, "wrap": WrapOut(), "raises": WrapOut(raises=True)}[cfg["handler"]]
+    h = {"none": None, "wrap": WrapOut(), "raises": WrapOut(raises=True), "count": WrapOut(form="count"),
+         "null": WrapOut(form="null")}[cfg["handler"]]
     kwargs = dict(data_handler=h, fail_on_no_recorded_result=cfg["fail"],
                   default_result_when_not_recorded=to_py(cfg["default"]))
     if cfg["static"]:
@@ -1040,8 +1045,16 @@ def run_c04(case):     # (C04 and C05: recorder histories and racing-threads cas
 
 if __name__ == '__main__':
     hs = {p: run_history for p in ("C01", "C02", "C03", "C05", "C09", "C18", "REC")}
-    hs["C01"] = lambda case: run_mutation_probe(case) if case.get("kind") == "mutation" else run_history(case)
-    hs["C02"] = hs["C03"] = lambda case: __import__("alias_probes").run_alias_probe(case) if case.get("kind") == "alias" else run_history(case)
+    def _with_probes(fallback):
+        # round-6 case kinds (rec_probes.py: "xproc", "nested", "exc_history") in front of a property's own dispatch
+        def run(case):
+            import rec_probes
+            f = rec_probes.KINDS.get(case.get("kind"))
+            return f(case) if f else fallback(case)
+        return run
+    hs["C01"] = _with_probes(lambda case: run_mutation_probe(case) if case.get("kind") == "mutation" else run_history(case))
+    hs["C02"] = hs["C03"] = _with_probes(lambda case: __import__("alias_probes").run_alias_probe(case) if case.get("kind") == "alias" else run_history(case))
+    hs["XSEG"] = lambda job: __import__("rec_probes").run_segment(job)
     hs["C04"] = run_c04
     hs["C05"] = run_c04
     hs["C09"] = run_c04
